@@ -312,9 +312,14 @@ def run_job(args):
         job = Job(spec, params, tier, seed)
         e = Engine()
         pkg = fresh_package(spec.merge) if spec.fresh_pkg else package(spec.merge)
+        snap = loader.snapshot(pkg) if spec.fresh_pkg else None
 
         def fn():
             stubs.CONFIG.reset()
+            for _k in core.ABSTRACT:
+                core.ABSTRACT[_k] = False
+            if snap is not None:
+                loader.restore(pkg, snap)
             job.pending = []
             c = PathCtx(job)
             job.cur_ctx = c
@@ -412,6 +417,10 @@ class CheckRunner:
             with ctx.Pool(min(self.procs, len(jobs)), maxtasksperchild=None) as pool:
                 for r in pool.imap_unordered(run_job, jobs, chunksize=1):
                     results.append(r)
+                    if os.environ.get('VERIF_PROGRESS'):
+                        print(f"[{len(results)}/{len(jobs)}] {r['harness']} {json.dumps(r['params'])} "
+                              f"{r.get('wall', 0):.1f}s paths={r.get('stats', {}).get('paths')} ok={r.get('ok')}",
+                              file=sys.stderr, flush=True)
         else:
             for j in jobs:
                 results.append(run_job(j))
@@ -470,6 +479,9 @@ class CheckRunner:
             if not reached.get(label):
                 errors.append(f'vacuity: reachability marker {label!r} never reached')
         os.makedirs(os.path.join(VERIF, 'evidence', 'replay'), exist_ok=True)
+        stale = os.path.join(VERIF, 'evidence', f'{self.pid}.nonrepro.json')
+        if os.path.exists(stale):
+            os.remove(stale)
         printed = set()
         for k, v in viol_known:
             if k['id'] not in printed:
